@@ -13,7 +13,8 @@ struct GenCfg
   std::string nuc;
   int level = 0;
   int mode = 0;
-  i64 emin_keV = -1;      // -1: no window bound
+  i64 emin_keV = -1;      // -1: no window bound; any other value (also a negative one, e.g. -2000) is a bound in keV
+  bool has_window() const { return emin_keV != -1 || emax_keV != -1; }
   i64 emax_keV = -1;
   int mdl = 0;            // 0 none, 1.. presets of the momentum-direction-lock op
   std::string key() const;
